@@ -420,6 +420,9 @@ def run_case(case, salt=0, make=make_fakes):
         backends = m["Backends"](fakes)
     except BaseException as e:  # noqa: BLE001
         return {"outcome": ["raise", exc_kind(e)], "log": canon_log(log), "stage": "construct"}
+    after_startup = getattr(make, "after_startup", None)
+    if after_startup is not None:
+        after_startup()
     tables = {
         name: sorted([s, index_of[id(b)]] for s, b in getattr(backends, attr).items())
         for name, attr in (("lib", "with_library"), ("browse", "with_library_browse"),
